@@ -1,9 +1,24 @@
 //! C17 oracle: formatting never changes a program and is stable.
 //!
-//! skeleton = pre-order sequence of syntax-node kinds and non-trivia tokens (kind, text); only COMMA
-//! tokens that directly precede the closing delimiter of their list -- `)`, `]`, `}` or the closing `|`
-//! of a lambda parameter list -- are removed on both sides (the formatter regenerates list commas; every
-//! other token is passed through). Comment multiset compared by text (line comments right-trimmed).
+//! For an input that parses without errors and a line width w:
+//!   1. `format_source_with_line_length` does not panic (this includes its own re-parse assertion);
+//!   2. the output parses without errors;
+//!   3. *skeleton* equality: the tree of syntax-node kinds and non-trivia tokens (kind, text), with the
+//!      optional separators removed on both sides, is identical. Optional separators are exactly
+//!        (a) a COMMA that is the child of a LIST_ITEM whose next non-trivia sibling is the closing
+//!            delimiter of the list (`)`, `]`, `}` or the closing `|` of a lambda parameter list),
+//!        (b) a COMMA that is a direct child of MATCH_EXPR and either directly precedes the closing `}`
+//!            or directly follows an arm whose value is block-like for the *parser* (block, if, for,
+//!            while, match: `parse_match` only `eat`s the comma there).
+//!      Every other token must be passed through in order. If the raw skeletons differ, *canonical*
+//!      skeletons are compared, in which the three reorderings the formatter performs by design are
+//!      factored out: (A) maximal runs of sibling USE declarations as multisets, (B) use-group entries as
+//!      multisets and a one-entry group equal to its content, (C) the MODIFIER children of a MODIFIER_LIST
+//!      as a multiset. The smallest set of canonicalisations that makes the skeletons equal is reported
+//!      under one of seven fixed keys `c17:reordered:<set>`; if none does, `c17:skeleton:...`.
+//!   4. the multiset of comment texts is identical (line comments compared right-trimmed);
+//!      a lost comment is keyed by its structural position class in the *input* tree;
+//!   5. format(format(x)) == format(x); keyed by the token context of the first differing byte.
 use std::sync::Arc;
 
 use dora_parser::ast::{SyntaxElement, SyntaxNode};
@@ -11,92 +26,701 @@ use dora_parser::{Parser, TokenKind};
 use vhc::textgen::{Corpus, tokens};
 use vhc::{Args, Reporter, Rng, catch, msg_class};
 
+// ------------------------------------------------------------------------------------------------
+// Trees without trivia and without optional separators
+
+#[derive(PartialEq, Eq, Debug, Clone)]
+pub enum T {
+    N(TokenKind, Vec<T>),
+    K(TokenKind, String),
+}
+
 #[derive(PartialEq, Eq, Debug, Clone)]
 pub enum Sk {
-    Node(TokenKind),
+    Open(TokenKind),
+    Close,
     Tok(TokenKind, String),
 }
 
-struct Analysis {
-    skel: Vec<Sk>,
-    comments: Vec<(String, String)>, // (text, context)
+pub struct Comment {
+    pub text: String,
+    pub class: String,  // structural position class (key material)
+    pub detail: String, // parent/prev/next, human readable
 }
 
-fn analyze(text: &str) -> Option<Analysis> {
+pub struct Analysis {
+    pub tree: T,
+    pub comments: Vec<Comment>,
+}
+
+const CLOSERS: &[TokenKind] = &[TokenKind::R_PAREN, TokenKind::R_BRACKET, TokenKind::R_BRACE, TokenKind::OR];
+
+/// value kinds for which `parse_match` makes the separating comma optional (parser.rs parse_factor:
+/// Blocklike::Yes); a lambda is *not* in this set.
+const PARSER_BLOCKLIKE: &[TokenKind] =
+    &[TokenKind::BLOCK_EXPR, TokenKind::IF_EXPR, TokenKind::FOR_EXPR, TokenKind::WHILE_EXPR, TokenKind::MATCH_EXPR];
+
+/// node kinds printed by the formatter's comma-list/braced-list helpers
+const LIST_KINDS: &[TokenKind] = &[
+    TokenKind::ARGUMENT_LIST,
+    TokenKind::PARAM_LIST,
+    TokenKind::LAMBDA_PARAM_LIST,
+    TokenKind::TYPE_PARAM_LIST,
+    TokenKind::TYPE_ARGUMENT_LIST,
+    TokenKind::UNNAMED_FIELD_LIST,
+    TokenKind::NAMED_FIELD_LIST,
+    TokenKind::ENUM_VARIANT_LIST,
+    TokenKind::CTOR_FIELD_LIST,
+    TokenKind::TUPLE_EXPR,
+    TokenKind::TUPLE_TYPE,
+    TokenKind::TUPLE_PATTERN,
+    TokenKind::USE_GROUP,
+];
+
+fn kind_of_node(n: &SyntaxNode) -> TokenKind {
+    n.green().syntax_kind()
+}
+
+fn el_kind(e: &SyntaxElement) -> TokenKind {
+    match e {
+        SyntaxElement::Node(n) => kind_of_node(n),
+        SyntaxElement::Token(t) => t.syntax_kind(),
+    }
+}
+
+fn is_trivia_el(e: &SyntaxElement) -> bool {
+    match e {
+        SyntaxElement::Node(_) => false,
+        SyntaxElement::Token(t) => t.is_trivia(),
+    }
+}
+
+fn last_child_node_kind(n: &SyntaxNode) -> Option<TokenKind> {
+    let mut k = None;
+    for el in n.children_with_tokens() {
+        if let SyntaxElement::Node(c) = el {
+            k = Some(kind_of_node(&c));
+        }
+    }
+    k
+}
+
+pub fn analyze(text: &str) -> Option<Analysis> {
     let (file, errors) = Parser::from_shared_string(Arc::new(text.to_string())).parse();
     if !errors.is_empty() {
         return None;
     }
-    let mut skel = vec![];
-    let mut comments: Vec<(String, String)> = vec![];
-    let mut st = Walk { prev_tok: TokenKind::EOF, pending: vec![] };
-    walk(&file.root(), &mut skel, &mut comments, &mut st);
-    Some(Analysis { skel: strip_trailing_commas(skel), comments })
+    let mut comments = vec![];
+    let tree = build(&file.root(), false, &mut comments);
+    Some(Analysis { tree, comments })
 }
 
-struct Walk {
-    prev_tok: TokenKind,
-    pending: Vec<usize>, // comments waiting for their "next token"
-}
-
-fn walk(node: &SyntaxNode, skel: &mut Vec<Sk>, comments: &mut Vec<(String, String)>, st: &mut Walk) {
-    skel.push(Sk::Node(node.green().syntax_kind()));
-    for el in node.children_with_tokens() {
+/// `item_before_closer`: this node is a LIST_ITEM directly followed by the closing delimiter of its list.
+fn build(node: &SyntaxNode, item_before_closer: bool, comments: &mut Vec<Comment>) -> T {
+    let kind = kind_of_node(node);
+    let els: Vec<SyntaxElement> = node.children_with_tokens().collect();
+    let code: Vec<usize> = (0..els.len()).filter(|&i| !is_trivia_el(&els[i])).collect();
+    let prev_code = |i: usize| -> Option<usize> { code.iter().rev().find(|&&j| j < i).copied() };
+    let next_code = |i: usize| -> Option<usize> { code.iter().find(|&&j| j > i).copied() };
+    let mut out = vec![];
+    for (i, el) in els.iter().enumerate() {
         match el {
-            SyntaxElement::Node(n) => walk(&n, skel, comments, st),
+            SyntaxElement::Node(n) => {
+                let before_closer = kind_of_node(n) == TokenKind::LIST_ITEM
+                    && next_code(i).map(|j| matches!(&els[j], SyntaxElement::Token(t) if CLOSERS.contains(&t.syntax_kind()))).unwrap_or(false);
+                out.push(build(n, before_closer, comments));
+            }
             SyntaxElement::Token(t) => {
                 let k = t.syntax_kind();
                 if t.is_trivia() {
                     if k == TokenKind::LINE_COMMENT || k == TokenKind::MULTILINE_COMMENT {
                         let txt = if k == TokenKind::LINE_COMMENT { t.text().trim_end().to_string() } else { t.text().to_string() };
-                        st.pending.push(comments.len());
-                        comments.push((txt, format!("parent={:?}:prev={:?}", node.green().syntax_kind(), st.prev_tok)));
+                        let p = prev_code(i).map(|j| el_kind(&els[j]));
+                        let n = next_code(i).map(|j| el_kind(&els[j]));
+                        let class = match (p, n) {
+                            (Some(_), None) if LIST_KINDS.contains(&kind) => "after-closing-delimiter-of-list".to_string(),
+                            (Some(_), None) => format!("trailing-in:{:?}", kind),
+                            (None, Some(_)) => format!("leading-in:{:?}", kind),
+                            (None, None) => format!("alone-in:{:?}", kind),
+                            (Some(p), Some(n)) => format!("in:{:?}:after:{:?}:before:{:?}", kind, p, n),
+                        };
+                        comments.push(Comment { text: txt, class, detail: format!("parent={:?} prev={:?} next={:?}", kind, p, n) });
                     }
-                } else {
-                    for p in st.pending.drain(..) {
-                        comments[p].1.push_str(&format!(":next={:?}", k));
+                    continue;
+                }
+                if k == TokenKind::COMMA {
+                    let optional = match kind {
+                        TokenKind::LIST_ITEM => item_before_closer && next_code(i).is_none(),
+                        TokenKind::MATCH_EXPR => {
+                            let before_brace = next_code(i)
+                                .map(|j| matches!(&els[j], SyntaxElement::Token(t) if t.syntax_kind() == TokenKind::R_BRACE))
+                                .unwrap_or(false);
+                            let after_blocklike = prev_code(i)
+                                .map(|j| match &els[j] {
+                                    SyntaxElement::Node(a) if kind_of_node(a) == TokenKind::MATCH_ARM => {
+                                        last_child_node_kind(a).map(|v| PARSER_BLOCKLIKE.contains(&v)).unwrap_or(false)
+                                    }
+                                    _ => false,
+                                })
+                                .unwrap_or(false);
+                            before_brace || after_blocklike
+                        }
+                        _ => false,
+                    };
+                    if optional {
+                        continue;
                     }
-                    st.prev_tok = k;
-                    skel.push(Sk::Tok(k, t.text().to_string()));
+                }
+                out.push(T::K(k, t.text().to_string()));
+            }
+        }
+    }
+    T::N(kind, out)
+}
+
+fn flatten(t: &T, out: &mut Vec<Sk>) {
+    match t {
+        T::N(k, ch) => {
+            out.push(Sk::Open(*k));
+            for c in ch {
+                flatten(c, out);
+            }
+            out.push(Sk::Close);
+        }
+        T::K(k, s) => out.push(Sk::Tok(*k, s.clone())),
+    }
+}
+
+fn flat(t: &T) -> Vec<Sk> {
+    let mut v = vec![];
+    flatten(t, &mut v);
+    v
+}
+
+fn ser(t: &T) -> String {
+    let mut s = String::new();
+    fn go(t: &T, s: &mut String) {
+        match t {
+            T::N(k, ch) => {
+                s.push_str(&format!("({:?}", k));
+                for c in ch {
+                    s.push(' ');
+                    go(c, s);
+                }
+                s.push(')');
+            }
+            T::K(k, x) => s.push_str(&format!("{:?}:{:?}", k, x)),
+        }
+    }
+    go(t, &mut s);
+    s
+}
+
+pub const CANON_USE_DECL: u8 = 1;
+pub const CANON_USE_GROUP: u8 = 2;
+pub const CANON_MODIFIERS: u8 = 4;
+
+fn is_kind(t: &T, k: TokenKind) -> bool {
+    matches!(t, T::N(x, _) if *x == k)
+}
+
+/// Canonical form under the canonicalisations selected by `mask` (bottom-up).
+fn canon(t: &T, mask: u8) -> T {
+    match t {
+        T::K(..) => t.clone(),
+        T::N(kind, ch) => {
+            let mut ch: Vec<T> = ch.iter().map(|c| canon(c, mask)).collect();
+            if mask & CANON_MODIFIERS != 0 && *kind == TokenKind::MODIFIER_LIST {
+                // (C) all MODIFIER children as a multiset (they are the only code children)
+                let mut mods: Vec<T> = ch.iter().filter(|c| is_kind(c, TokenKind::MODIFIER)).cloned().collect();
+                mods.sort_by_key(ser);
+                let mut it = mods.into_iter();
+                for c in ch.iter_mut() {
+                    if is_kind(c, TokenKind::MODIFIER) {
+                        *c = it.next().unwrap();
+                    }
                 }
             }
+            if mask & CANON_USE_GROUP != 0 && *kind == TokenKind::USE_GROUP {
+                // (B1) entries as a multiset; the separating commas carry no information once the
+                // entries are unordered, so they are removed from the items.
+                let mut items: Vec<T> = vec![];
+                for c in ch.iter() {
+                    if let T::N(TokenKind::LIST_ITEM, ic) = c {
+                        let ic: Vec<T> = ic.iter().filter(|x| !matches!(x, T::K(TokenKind::COMMA, _))).cloned().collect();
+                        items.push(T::N(TokenKind::LIST_ITEM, ic));
+                    }
+                }
+                items.sort_by_key(ser);
+                let mut it = items.into_iter();
+                for c in ch.iter_mut() {
+                    if is_kind(c, TokenKind::LIST_ITEM) {
+                        *c = it.next().unwrap();
+                    }
+                }
+            }
+            if mask & CANON_USE_GROUP != 0 && *kind == TokenKind::USE_TREE {
+                // (B2) `p::{q::X}` == `p::q::X`: a group with exactly one entry is replaced by the
+                // children of that entry's use tree (children are canonical already, so nested
+                // one-entry groups have been flattened before).
+                if let Some(T::N(TokenKind::USE_GROUP, gc)) = ch.last() {
+                    let items: Vec<&T> = gc.iter().filter(|c| is_kind(c, TokenKind::LIST_ITEM)).collect();
+                    if items.len() == 1 {
+                        if let T::N(_, ic) = items[0] {
+                            if ic.len() == 1 {
+                                if let T::N(TokenKind::USE_TREE, inner) = &ic[0] {
+                                    let inner = inner.clone();
+                                    ch.pop();
+                                    ch.extend(inner);
+                                }
+                            }
+                        }
+                    }
+                }
+            }
+            if mask & CANON_USE_DECL != 0 {
+                // (A) maximal runs of sibling USE declarations as multisets
+                let mut i = 0;
+                while i < ch.len() {
+                    if !is_kind(&ch[i], TokenKind::USE) {
+                        i += 1;
+                        continue;
+                    }
+                    let mut j = i + 1;
+                    while j < ch.len() && is_kind(&ch[j], TokenKind::USE) {
+                        j += 1;
+                    }
+                    ch[i..j].sort_by_key(ser);
+                    i = j;
+                }
+            }
+            T::N(*kind, ch)
         }
     }
 }
 
-fn strip_trailing_commas(v: Vec<Sk>) -> Vec<Sk> {
-    let mut out: Vec<Sk> = Vec::with_capacity(v.len());
-    // the closing `|` of a lambda parameter list: an OR token that is the last token child of a
-    // PARAM_LIST-like node. We approximate structurally: a COMMA whose next token is OR and whose next
-    // token after that begins the lambda's return type or body is optional -- the formatter itself
-    // regenerates it; the node kinds around are compared as well, so a changed tree still shows up.
-    for (i, e) in v.iter().enumerate() {
-        if let Sk::Tok(TokenKind::COMMA, _) = e {
-            let mut j = i + 1;
-            while j < v.len() {
-                if let Sk::Node(_) = v[j] { j += 1; } else { break; }
+fn mask_name(mask: u8) -> String {
+    let mut v = vec![];
+    if mask & CANON_USE_DECL != 0 {
+        v.push("use-decl-sort");
+    }
+    if mask & CANON_USE_GROUP != 0 {
+        v.push("use-group");
+    }
+    if mask & CANON_MODIFIERS != 0 {
+        v.push("modifiers");
+    }
+    v.join("+")
+}
+
+fn sk_kind(v: &[Sk], i: usize) -> String {
+    match v.get(i) {
+        Some(Sk::Open(k)) => format!("N:{:?}", k),
+        Some(Sk::Close) => "CLOSE".into(),
+        Some(Sk::Tok(k, _)) => format!("T:{:?}", k),
+        None => "END".into(),
+    }
+}
+
+/// innermost node kind that is open at position i
+fn enclosing(v: &[Sk], i: usize) -> String {
+    let mut st = vec![];
+    for e in &v[..i.min(v.len())] {
+        match e {
+            Sk::Open(k) => st.push(*k),
+            Sk::Close => {
+                st.pop();
             }
-            if j < v.len() {
-                if let Sk::Tok(k, _) = &v[j] {
-                    if matches!(k, TokenKind::R_PAREN | TokenKind::R_BRACKET | TokenKind::R_BRACE | TokenKind::OR) {
-                        // `(a,)` vs `(a)`: the node kinds differ (tuple vs paren), so removing the comma
-                        // here cannot hide a real change.
-                        continue;
-                    }
-                }
+            _ => {}
+        }
+    }
+    st.last().map(|k| format!("{:?}", k)).unwrap_or_else(|| "ROOT".into())
+}
+
+/// None = equal; Some((key, what))
+fn compare_trees(a: &T, b: &T) -> Option<(String, String)> {
+    let (fa, fb) = (flat(a), flat(b));
+    if fa == fb {
+        return None;
+    }
+    // smallest canonicalisation set that explains the difference
+    let mut masks: Vec<u8> = (1..8).collect();
+    masks.sort_by_key(|m: &u8| m.count_ones());
+    for m in masks {
+        if flat(&canon(a, m)) == flat(&canon(b, m)) {
+            return Some((
+                format!("c17:reordered:{}", mask_name(m)),
+                format!("code tokens were reordered (equal only modulo: {})", mask_name(m)),
+            ));
+        }
+    }
+    // a real difference: describe it on the fully canonical forms so that by-design reorderings
+    // elsewhere in the file do not hide or shift it
+    let (ca, cb) = (flat(&canon(a, 7)), flat(&canon(b, 7)));
+    let i = ca.iter().zip(cb.iter()).position(|(x, y)| x != y).unwrap_or(ca.len().min(cb.len()));
+    let show = |v: &[Sk]| -> String {
+        let lo = i.saturating_sub(4);
+        let hi = (i + 4).min(v.len());
+        format!("{:?}", &v[lo..hi])
+    };
+    Some((
+        format!("c17:skeleton:in:{}:{}->{}", enclosing(&ca, i), sk_kind(&ca, i), sk_kind(&cb, i)),
+        format!("skeleton differs at element {}: input {} / output {}", i, show(&ca), show(&cb)),
+    ))
+}
+
+// ------------------------------------------------------------------------------------------------
+// Non-idempotence: key = token context of the first differing byte in the first output
+
+fn tok_class(k: TokenKind) -> String {
+    use TokenKind::*;
+    match k {
+        IDENTIFIER | INT_LITERAL | FLOAT_LITERAL | STRING_LITERAL | CHAR_LITERAL | TEMPLATE_LITERAL | TEMPLATE_END_LITERAL | TRUE | FALSE | SELF_KW
+        | UPCASE_SELF_KW => "atom".into(),
+        LINE_COMMENT => "line-comment".into(),
+        MULTILINE_COMMENT => "block-comment".into(),
+        _ => format!("{:?}", k),
+    }
+}
+
+/// Code/comment tokens of a text with the layout gap in front of each: number of newlines (0..=3, 3 = "3 or
+/// more") between it and the previous non-blank token.
+fn gap_tokens(text: &str) -> Vec<(TokenKind, usize, usize)> {
+    let mut out = vec![];
+    let mut nl = 0usize;
+    let mut pos = 0usize;
+    for (k, t) in tokens(text) {
+        match k {
+            TokenKind::WHITESPACE => {}
+            TokenKind::NEWLINE => nl += 1,
+            _ => {
+                out.push((k, nl.min(3), pos));
+                nl = 0;
             }
         }
-        out.push(e.clone());
+        pos += t.len();
     }
     out
 }
 
+const GAP_NAMES: [&str; 4] = ["same-line", "newline", "blank-line", "blank-lines"];
+
+/// Key of a non-idempotence. Both outputs have the same token sequence (otherwise `tokens-differ`); the
+/// layout difference that is reported is, in this order of preference,
+///   1. the first place where the second pass has *fewer* newlines than the first (something the first
+///      pass let through and the second pass normalised: the cause; re-breaking of groups because a line
+///      became longer is the consequence and comes with *more* newlines),
+///   2. the first place where it has more newlines,
+///   3. the first byte that differs (spacing inside a line).
+/// The key names the gap change and the token classes on both sides of it.
+fn idem_key(first: &str, second: &str) -> (String, String) {
+    let p = first.bytes().zip(second.bytes()).position(|(a, b)| a != b).unwrap_or(first.len().min(second.len()));
+    let mut lo = p.saturating_sub(60);
+    while !first.is_char_boundary(lo) {
+        lo -= 1;
+    }
+    let ctx = |s: &str, lo: usize| -> String { s.get(lo..).unwrap_or("").chars().take(120).collect() };
+    let what0 = format!("second formatting differs at byte {}: {:?} vs {:?}", p, ctx(first, lo), ctx(second, lo));
+    let (a, b) = (gap_tokens(first), gap_tokens(second));
+    let same_tokens = a.len() == b.len() && a.iter().zip(b.iter()).all(|(x, y)| x.0 == y.0);
+    if !same_tokens {
+        // comments moved relative to code tokens, or an optional separator came or went
+        let i = a.iter().zip(b.iter()).position(|(x, y)| x.0 != y.0).unwrap_or(a.len().min(b.len()));
+        let cls = |v: &Vec<(TokenKind, usize, usize)>| v.get(i).map(|t| tok_class(t.0)).unwrap_or_else(|| "END".into());
+        return (format!("c17:not-idempotent:tokens-differ:{}->{}", cls(&a), cls(&b)), what0);
+    }
+    let fewer = (0..a.len()).find(|&i| b[i].1 < a[i].1);
+    let more = (0..a.len()).find(|&i| b[i].1 > a[i].1);
+    let name = |i: usize| -> String {
+        let prev = if i == 0 { "START".to_string() } else { tok_class(a[i - 1].0) };
+        format!("{}|{}:{}->{}", prev, tok_class(a[i].0), GAP_NAMES[a[i].1], GAP_NAMES[b[i].1])
+    };
+    if let Some(i) = fewer.or(more) {
+        let mut lo = a[i].2.saturating_sub(60);
+        while !first.is_char_boundary(lo) {
+            lo -= 1;
+        }
+        return (
+            format!("c17:not-idempotent:{}", name(i)),
+            format!("{} (keyed by the layout change in front of byte {} of the first output: {:?})", what0, a[i].2, ctx(first, lo)),
+        );
+    }
+    // spacing inside a line only: name the side that is a comment (the two trivia printers of the
+    // formatter differ exactly there), otherwise the two token classes
+    let i = a.iter().position(|t| t.2 >= p).unwrap_or(a.len().saturating_sub(1));
+    let prev = if i == 0 { None } else { Some(a[i - 1].0) };
+    let next = a.get(i).map(|t| t.0);
+    let cls = |k: Option<TokenKind>| k.map(tok_class).unwrap_or_else(|| "EDGE".into());
+    let key = match (prev, next) {
+        (Some(TokenKind::LINE_COMMENT), _) => "indent-after-line-comment".to_string(),
+        (_, Some(TokenKind::LINE_COMMENT)) => "before-line-comment".to_string(),
+        (Some(TokenKind::MULTILINE_COMMENT), Some(TokenKind::MULTILINE_COMMENT)) => "between-block-comments".to_string(),
+        (_, Some(TokenKind::MULTILINE_COMMENT)) => "before-block-comment".to_string(),
+        (Some(TokenKind::MULTILINE_COMMENT), _) => "after-block-comment".to_string(),
+        _ => format!("{}|{}", cls(prev), cls(next)),
+    };
+    (format!("c17:not-idempotent:spacing:{}", key), what0)
+}
+
+// ------------------------------------------------------------------------------------------------
+
 pub const WIDTHS: &[u32] = &[1, 20, 40, 60, 90, 120, 1000];
 
-/// Layout mutants: same code tokens, different layout/comments.
-fn layout_mutant(rng: &mut Rng, base: &str) -> (String, &'static str) {
+pub fn check_one(text: &str, width: u32) -> Result<Vec<(String, String)>, &'static str> {
+    let Some(a0) = analyze(text) else { return Err("input-parse-errors") };
+    let out = match dora_format::format_source_with_line_length(text, width) {
+        Ok(o) => o,
+        Err(_) => return Err("format-rejected"),
+    };
+    let mut bad = vec![];
+    match analyze(&out) {
+        None => bad.push(("c17:output-parse-errors".to_string(), "formatted output has parse errors".to_string())),
+        Some(a1) => {
+            if let Some(d) = compare_trees(&a0.tree, &a1.tree) {
+                bad.push(d);
+            }
+            // comment multiset
+            let mut rest: Vec<&String> = a1.comments.iter().map(|c| &c.text).collect();
+            let mut lost: Vec<&Comment> = vec![];
+            for c in &a0.comments {
+                if let Some(p) = rest.iter().position(|r| **r == c.text) {
+                    rest.swap_remove(p);
+                } else {
+                    lost.push(c);
+                }
+            }
+            if !rest.is_empty() && lost.is_empty() {
+                bad.push(("c17:comment-invented".into(), format!("output has a comment the input lacks: {:?}", rest[0])));
+            }
+            // one report per distinct position class
+            let mut seen: Vec<&str> = vec![];
+            for c in &lost {
+                if seen.contains(&c.class.as_str()) {
+                    continue;
+                }
+                seen.push(&c.class);
+                let n = lost.iter().filter(|x| x.class == c.class).count();
+                bad.push((
+                    format!("c17:comment-lost:{}", c.class),
+                    format!("comment {:?} of the input is missing in the output ({}; {} lost in this position class)", c.text, c.detail, n),
+                ));
+            }
+        }
+    }
+    match dora_format::format_source_with_line_length(&out, width) {
+        Ok(again) => {
+            if *again != *out {
+                bad.push(idem_key(&out, &again));
+            }
+        }
+        Err(_) => bad.push(("c17:second-format-rejected".into(), "formatter rejected its own output".into())),
+    }
+    Ok(bad)
+}
+
+// ------------------------------------------------------------------------------------------------
+// Comment insertion
+//
+// Two families:
+//  * `comments` (tiers): comments are inserted at *structural* positions taken from the syntax tree of
+//    the base file -- before/after statements, elements, match arms, fields/variants and list items,
+//    after an opening and before a closing brace -- in the styles people write (own-line `//` and
+//    `/* */`, trailing `//` and `/* */`, inline `/* */` in front). Only (position, style) pairs of
+//    `COMMENT_SITES` are used; see the comment there for what was left out and why.
+//  * `comments-wide` (kv `wide=1`, not part of any tier): a comment at every token boundary with
+//    probability 1/rate. On the pinned tree this family does not saturate (see report).
+
+#[derive(Clone, Copy, PartialEq, Eq, Debug)]
+enum Side {
+    Before,
+    After,
+}
+
+struct Point {
+    at: usize,
+    class: &'static str,
+    side: Side,
+}
+
+const BRACED: &[TokenKind] =
+    &[TokenKind::BLOCK_EXPR, TokenKind::ELEMENT_LIST, TokenKind::MATCH_EXPR, TokenKind::NAMED_FIELD_LIST, TokenKind::ENUM_VARIANT_LIST];
+
+fn collect_points(node: &SyntaxNode, pts: &mut Vec<Point>) {
+    use TokenKind::*;
+    let kind = kind_of_node(node);
+    let els: Vec<SyntaxElement> = node.children_with_tokens().collect();
+    for (i, el) in els.iter().enumerate() {
+        match el {
+            SyntaxElement::Node(n) => {
+                let ck = kind_of_node(n);
+                let class: Option<&'static str> = match (kind, ck) {
+                    (BLOCK_EXPR, LET) | (BLOCK_EXPR, EXPR_STMT) => Some("stmt"),
+                    (ELEMENT_LIST, _) => Some("element"),
+                    (MATCH_EXPR, MATCH_ARM) => Some("arm"),
+                    (NAMED_FIELD_LIST, LIST_ITEM) | (ENUM_VARIANT_LIST, LIST_ITEM) => Some("field"),
+                    (USE_GROUP, LIST_ITEM) => None,
+                    (_, LIST_ITEM) => Some("item"),
+                    _ => None,
+                };
+                if let Some(c) = class {
+                    let sp = n.span();
+                    if sp.len() > 0 {
+                        pts.push(Point { at: sp.start() as usize, class: c, side: Side::Before });
+                        let mut end = sp.end() as usize;
+                        if c == "arm" {
+                            // behind the separating comma, if there is one
+                            if let Some(SyntaxElement::Token(t)) = els[i + 1..].iter().find(|e| !is_trivia_el(e)) {
+                                if t.syntax_kind() == COMMA {
+                                    end = (t.offset().value() + t.text_length()) as usize;
+                                }
+                            }
+                        }
+                        pts.push(Point { at: end, class: c, side: Side::After });
+                    }
+                }
+                collect_points(n, pts);
+            }
+            SyntaxElement::Token(t) => {
+                if kind == IF_EXPR && t.syntax_kind() == ELSE_KW {
+                    pts.push(Point { at: t.offset().value() as usize, class: "else", side: Side::Before });
+                }
+                if BRACED.contains(&kind) {
+                    if t.syntax_kind() == L_BRACE {
+                        pts.push(Point { at: (t.offset().value() + t.text_length()) as usize, class: "open-brace", side: Side::After });
+                    } else if t.syntax_kind() == R_BRACE {
+                        pts.push(Point { at: t.offset().value() as usize, class: "close-brace", side: Side::Before });
+                    }
+                }
+            }
+        }
+    }
+}
+
+/// (position class, style) pairs used by the tier family. Styles: before = own-line (`\n// c\n`),
+/// own-block (`\n/* c */\n`), inline-block (`/* c */ `); after = trail-line (` // c\n`), trail-block (` /* c */`),
+/// trail-block-nl (` /* c */\n`).
+pub const ALL_STYLES_BEFORE: &[&str] = &["own-line", "own-block", "inline-block"];
+pub const ALL_STYLES_AFTER: &[&str] = &["trail-line", "trail-block", "trail-block-nl"];
+pub const ALL_CLASSES: &[&str] = &["stmt", "element", "arm", "field", "item", "open-brace", "close-brace", "else"];
+
+/// Everything except a trailing block comment behind a list item's comma (`f(a, /* c */ b)`,
+/// `f(a, b, /* c */)`): the comma-list printer and the trivia printer lay such a comment out
+/// differently (`, /* c */ b` vs `/* c */b`; `, /* c */)` vs `/* c */)`), and which of the two sees it
+/// changes between the first and the second pass, so the failure key would depend on the token that
+/// happens to follow (not a closed set). Reported as a finding; the wide family shows it too.
+pub const COMMENT_SITES: &[(&str, &str)] = &[
+    ("stmt", "*"),
+    ("element", "*"),
+    ("arm", "*"),
+    ("field", "*"),
+    ("open-brace", "*"),
+    ("close-brace", "*"),
+    ("item", "own-line"),
+    ("item", "own-block"),
+    ("item", "inline-block"),
+    ("item", "trail-line"),
+];
+
+fn site_allowed(class: &str, style: &str) -> bool {
+    COMMENT_SITES.iter().any(|(c, s)| (*c == "*" || *c == class) && (*s == "*" || *s == style))
+}
+
+fn render_comment(style: &str, n: usize) -> String {
+    match style {
+        "own-line" => format!("\n// c{}\n", n),
+        "own-block" => format!("\n/* c{} */\n", n),
+        "inline-block" => format!("/* c{} */ ", n),
+        "trail-line" => format!(" // c{}\n", n),
+        "trail-block" => format!(" /* c{} */", n),
+        "trail-block-nl" => format!(" /* c{} */\n", n),
+        _ => unreachable!(),
+    }
+}
+
+pub struct MutOpts {
+    pub wide: bool,
+    /// measurement mode: every mutant uses exactly one (class, style) pair (all pairs, allowed or not)
+    /// and reports it in its family name
+    pub measure: bool,
+}
+
+fn comment_mutant(rng: &mut Rng, base: &str, opts: &MutOpts) -> (String, String) {
+    if opts.wide {
+        let toks = tokens(base);
+        let mut s = String::with_capacity(base.len() * 2);
+        let rate = 1 + rng.below(8) as u64;
+        let mut n = 0;
+        for (i, (k, t)) in toks.iter().enumerate() {
+            s.push_str(t);
+            if i + 1 < toks.len() && rng.chance(1, rate) && !matches!(k, TokenKind::LINE_COMMENT) {
+                n += 1;
+                match rng.below(4) {
+                    0 => s.push_str(&format!(" /* c{} */ ", n)),
+                    1 => s.push_str(&format!("/*c{}*/", n)),
+                    2 => s.push_str(&format!(" // c{}\n", n)),
+                    _ => s.push_str(&format!("\n// c{}\n", n)),
+                }
+            }
+        }
+        return (s, "comments-wide".to_string());
+    }
+    let (file, errors) = Parser::from_shared_string(Arc::new(base.to_string())).parse();
+    if !errors.is_empty() {
+        return (base.to_string(), "comments".to_string());
+    }
+    let mut pts = vec![];
+    collect_points(&file.root(), &mut pts);
+    pts.sort_by_key(|p| (p.at, if p.side == Side::After { 0 } else { 1 }));
+    let only: Option<(&str, &str)> = if opts.measure {
+        let c = *rng.pick(ALL_CLASSES);
+        let st = if c == "open-brace" {
+            *rng.pick(ALL_STYLES_AFTER)
+        } else if c == "close-brace" || c == "else" {
+            *rng.pick(ALL_STYLES_BEFORE)
+        } else if rng.chance(1, 2) {
+            *rng.pick(ALL_STYLES_BEFORE)
+        } else {
+            *rng.pick(ALL_STYLES_AFTER)
+        };
+        Some((c, st))
+    } else {
+        None
+    };
+    let rate = 1 + rng.below(6) as u64;
+    let mut s = String::with_capacity(base.len() * 2);
+    let mut last = 0usize;
+    let mut n = 0usize;
+    for p in &pts {
+        if p.at < last || p.at > base.len() || !base.is_char_boundary(p.at) {
+            continue;
+        }
+        let styles = if p.side == Side::Before { ALL_STYLES_BEFORE } else { ALL_STYLES_AFTER };
+        let style = *rng.pick(styles);
+        let take = match only {
+            Some((c, st)) => c == p.class && st == style,
+            None => site_allowed(p.class, style) && rng.chance(1, rate),
+        };
+        if !take {
+            continue;
+        }
+        s.push_str(&base[last..p.at]);
+        last = p.at;
+        n += 1;
+        s.push_str(&render_comment(style, n));
+    }
+    s.push_str(&base[last..]);
+    match only {
+        Some((c, st)) => (s, format!("mc:{}:{}", c, st)),
+        None => (s, "comments".to_string()),
+    }
+}
+
+// ------------------------------------------------------------------------------------------------
+// Layout mutants: same code tokens, different layout/comments.
+
+fn layout_mutant(rng: &mut Rng, base: &str, opts: &MutOpts) -> (String, String) {
     let toks = tokens(base);
-    let kind = rng.below(5);
+    let kind = if opts.measure || opts.wide { 1 } else { rng.below(5) };
     let mut s = String::with_capacity(base.len() * 2);
     let ws = [" ", "  ", "\n", "\n\n", "\t", " \n ", "\n    ", "          ", "\n\n\n"];
     match kind {
@@ -109,27 +733,10 @@ fn layout_mutant(rng: &mut Rng, base: &str) -> (String, &'static str) {
                     s.push_str(t);
                 }
             }
-            (s, "respace")
+            (s, "respace".to_string())
         }
         1 => {
-            // comment insertion at token boundaries
-            let rate = 1 + rng.below(8) as u64;
-            let mut n = 0;
-            for (i, (k, t)) in toks.iter().enumerate() {
-                s.push_str(t);
-                let in_template = false;
-                let _ = in_template;
-                if i + 1 < toks.len() && rng.chance(1, rate) && !matches!(k, TokenKind::LINE_COMMENT) {
-                    n += 1;
-                    match rng.below(4) {
-                        0 => s.push_str(&format!(" /* c{} */ ", n)),
-                        1 => s.push_str(&format!("/*c{}*/", n)),
-                        2 => s.push_str(&format!(" // c{}\n", n)),
-                        _ => s.push_str(&format!("\n// c{}\n", n)),
-                    }
-                }
-            }
-            (s, "comments")
+            return comment_mutant(rng, base, opts);
         }
         2 => {
             // every boundary between two tokens gets whitespace
@@ -139,7 +746,7 @@ fn layout_mutant(rng: &mut Rng, base: &str) -> (String, &'static str) {
                     s.push_str(rng.pick_str(&ws));
                 }
             }
-            (s, "space-insert")
+            (s, "space-insert".to_string())
         }
         3 => {
             // line joining: newlines become spaces (except after line comments)
@@ -154,7 +761,7 @@ fn layout_mutant(rng: &mut Rng, base: &str) -> (String, &'static str) {
                     prev_line_comment = *k == TokenKind::LINE_COMMENT;
                 }
             }
-            (s, "line-join")
+            (s, "line-join".to_string())
         }
         _ => {
             // line splitting: whitespace becomes newline
@@ -165,104 +772,94 @@ fn layout_mutant(rng: &mut Rng, base: &str) -> (String, &'static str) {
                     s.push_str(t);
                 }
             }
-            (s, "line-split")
+            (s, "line-split".to_string())
         }
     }
 }
 
-fn first_diff(a: &[Sk], b: &[Sk]) -> (usize, String, String) {
-    let i = a.iter().zip(b.iter()).position(|(x, y)| x != y).unwrap_or(a.len().min(b.len()));
-    let show = |v: &[Sk]| -> String {
-        let lo = i.saturating_sub(3);
-        let hi = (i + 4).min(v.len());
-        format!("{:?}", &v[lo..hi])
-    };
-    (i, show(a), show(b))
-}
-
-fn kind_of(v: &[Sk], i: usize) -> String {
-    match v.get(i) {
-        Some(Sk::Node(k)) => format!("N:{:?}", k),
-        Some(Sk::Tok(k, _)) => format!("T:{:?}", k),
-        None => "END".into(),
+fn debug_one(path: &str, width: u32) {
+    let text = std::fs::read_to_string(path).unwrap();
+    if let Some(a) = analyze(&text) {
+        if std::env::var("C17_TREE").is_ok() {
+            println!("== TREE\n{}", ser(&a.tree));
+        }
+        for c in &a.comments {
+            println!("== COMMENT {:?} class={} ({})", c.text, c.class, c.detail);
+        }
     }
-}
-
-pub fn check_one(text: &str, width: u32) -> Result<Vec<(String, String)>, &'static str> {
-    let Some(a0) = analyze(text) else { return Err("input-parse-errors") };
-    let out = match dora_format::format_source_with_line_length(text, width) {
-        Ok(o) => o,
-        Err(_) => return Err("format-rejected"),
-    };
-    let mut bad = vec![];
-    match analyze(&out) {
-        None => bad.push(("c17:output-parse-errors".to_string(), "formatted output has parse errors".to_string())),
-        Some(a1) => {
-            if a0.skel != a1.skel {
-                let (i, x, y) = first_diff(&a0.skel, &a1.skel);
-                bad.push((
-                    format!("c17:skeleton:{}->{}", kind_of(&a0.skel, i), kind_of(&a1.skel, i)),
-                    format!("skeleton differs at element {}: input {} / output {}", i, x, y),
-                ));
-            }
-            let mut c0: Vec<&(String, String)> = a0.comments.iter().collect();
-            let mut c1: Vec<&String> = a1.comments.iter().map(|c| &c.0).collect();
-            c0.sort();
-            c1.sort();
-            let only0: Vec<&(String, String)> = {
-                // multiset difference
-                let mut rest: Vec<&String> = c1.clone();
-                let mut out = vec![];
-                for c in &c0 {
-                    if let Some(p) = rest.iter().position(|r| **r == c.0) {
-                        rest.remove(p);
-                    } else {
-                        out.push(*c);
-                    }
+    let t = text.clone();
+    match catch(move || dora_format::format_source_with_line_length(&t, width)) {
+        Ok(Ok(o)) => {
+            println!("== FIRST\n{}", o);
+            if let Ok(o2) = dora_format::format_source_with_line_length(&o, width) {
+                if *o2 != *o {
+                    println!("== SECOND\n{}", o2);
                 }
-                if !rest.is_empty() && out.is_empty() {
-                    bad.push(("c17:comment-invented".into(), format!("output has a comment the input lacks: {:?}", rest[0])));
-                }
-                out
-            };
-            if let Some(c) = only0.first() {
-                bad.push((format!("c17:comment-lost:{}", c.1), format!("comment {:?} of the input is missing in the output ({} lost)", c.0, only0.len())));
             }
         }
+        Ok(Err(_)) => println!("== REJECTED"),
+        Err(p) => println!("== PANIC {} {}", p.loc, p.msg),
     }
-    match dora_format::format_source_with_line_length(&out, width) {
-        Ok(again) => {
-            if *again != *out {
-                let p = again.bytes().zip(out.bytes()).position(|(a, b)| a != b).unwrap_or(0);
-                let lo = p.saturating_sub(40);
-                let ctx = |s: &str| -> String { s.chars().skip(s[..lo.min(s.len())].chars().count()).take(100).collect() };
-                bad.push(("c17:not-idempotent".into(), format!("second formatting differs at byte {}: {:?} vs {:?}", p, ctx(&out), ctx(&again))));
+    let t = text.clone();
+    match catch(move || check_one(&t, width)) {
+        Ok(Ok(bad)) => {
+            for (k, w) in bad {
+                println!("== BAD {} | {}", k, w);
             }
         }
-        Err(_) => bad.push(("c17:second-format-rejected".into(), "formatter rejected its own output".into())),
+        Ok(Err(e)) => println!("== SKIP {}", e),
+        Err(p) => println!("== PANIC panic@{}:{}", p.loc, msg_class(&p.msg)),
     }
-    Ok(bad)
 }
 
 pub fn run(args: &Args) {
+    if let Some(p) = args.get("file") {
+        let w: u32 = args.get("w").map(|s| s.parse().unwrap()).unwrap_or(90);
+        debug_one(p, w);
+        return;
+    }
     let corpus = Corpus::load(args.extra.as_deref());
+    if args.get("survey").is_some() {
+        // investigation: comment position classes over the corpus
+        let mut m: std::collections::BTreeMap<String, (usize, String)> = Default::default();
+        for (i, f) in corpus.files.iter().enumerate() {
+            let Some(t) = corpus.read(i) else { continue };
+            let Ok(Some(a)) = catch(move || analyze(&t)) else { continue };
+            for c in a.comments {
+                let e = m.entry(c.class.clone()).or_insert((0, f.display().to_string()));
+                e.0 += 1;
+            }
+        }
+        for (k, (n, f)) in m {
+            println!("{:6} {} e.g. {}", n, k, f);
+        }
+        return;
+    }
     let mut rep = Reporter::new(args);
     let nwidths: usize = args.get("widths").map(|s| s.parse().unwrap()).unwrap_or(3);
+    let opts = MutOpts { wide: args.get("wide") == Some("1"), measure: args.get("cmeasure") == Some("1") };
     for idx in args.indices() {
         let mut rng = Rng::new(args.seed, 0xc17, idx);
         // even indices: corpus file as is (walking the corpus); odd: layout mutant of a small file
-        let (text, family, base): (String, String, usize) = if idx % 2 == 0 {
+        let (text, family): (String, String) = if idx % 2 == 0 {
             let i = ((idx / 2) as usize) % corpus.files.len();
             match corpus.read(i) {
-                Some(t) => (t, "corpus".into(), i),
+                Some(t) => (t, "corpus".into()),
                 None => continue,
             }
         } else {
-            let (i, b) = corpus.random_small(&mut rng);
-            let (t, k) = layout_mutant(&mut rng, &b);
-            (t, format!("mutant-{}", k), i)
+            let (_, b) = match args.get("basefilter") {
+                // investigation only: mutants of the files whose path contains the given text
+                Some(pat) => {
+                    let cand: Vec<usize> = (0..corpus.files.len()).filter(|&i| corpus.files[i].to_string_lossy().contains(pat)).collect();
+                    let i = *rng.pick(&cand);
+                    (i, corpus.read(i).unwrap_or_default())
+                }
+                None => corpus.random_small(&mut rng),
+            };
+            let (t, k) = layout_mutant(&mut rng, &b, &opts);
+            (t, format!("mutant-{}", k))
         };
-        let _ = base;
         rep.begin_case(idx, text.as_bytes());
         rep.count("cases", 1);
         // widths: a rotating subset so that all widths are covered across the run
